@@ -200,7 +200,7 @@ def gen_broker_scenario(rng, lazy=False, style=None, malformed=False, limit_orde
     # a lazy client may also not be ready at the first poll (as any client over a real transport): the broker has to
     # drive the future to completion, not poll it once
     return dict(dataset=ds, costs=costs, lazy=lazy, yields=(rng.choice([0, 1, 1, 3]) if lazy else 0), ops=ops,
-                extra_syms=["NOPE"])
+                extra_syms=["NOPE"], builder_reuse=(rng.random() < 0.3))
 
 
 # ------------------------------------------------------------------------------------------------
@@ -723,7 +723,46 @@ def oracle_c12(sc, steps):
     return None
 
 
-BORACLES = dict(C04=oracle_c04, C05=oracle_c05, C06=oracle_c06, C09=oracle_c09, C10=oracle_c10, C11=oracle_c11,
+def oracle_c13_broker(sc, steps):
+    """C13 read on the broker: the fees it computes for a trade are additive over the configured cost list, and a
+    buy it sizes toward a target never costs more than the gap it was given, fees included"""
+    costs = [(k, F(x)) for k, x in sc["costs"]]
+    if not admissible_costs(sc["costs"]):
+        return None
+    for k, st in enumerate(steps):
+        if st["panic"]:
+            break
+        op, res, pre = st["op"], st["res"], st["pre"]
+        if op["op"] == "trade_costs":
+            q, v = F(op["qty"]), F(op["value"])
+            want = sum((x * q if kk == "ps" else x * v if kk == "pct" else x) for kk, x in costs)
+            got = F(res["costs"])
+            if not close(got, want, 1e-9, 1e-9):
+                return dict(step=k, what="fees of a trade are not the sum over the configured cost list "
+                            "(per-share x quantity, percentage x value, flat)", configured=[(a, b) for a, b in costs],
+                            quantity=q, value=v, got=got, want=want)
+        if op["op"] == "diff":
+            total = F(pre["liquidation_value"])
+            if total == 0.0 or math.isnan(total):
+                continue
+            quotes = {q["key"]: q for q in pre["quotes"]}
+            vals = {p["sym"]: p["value"] for p in pre["per_sym"]}
+            ws = dict((s_, F(w)) for s_, w in res["weights_order"])
+            for o in res["orders"]:
+                if o["type"] != "MarketBuy" or o["symbol"] not in quotes or o["symbol"] not in ws:
+                    continue
+                cur = F(vals[o["symbol"]]) if vals.get(o["symbol"]) is not None else 0.0
+                gap = total * ws[o["symbol"]] - cur
+                n, ask = F(o["shares"]), F(quotes[o["symbol"]]["ask"])
+                spent = n * ask + sum((x * n if kk == "ps" else x * n * ask if kk == "pct" else x) for kk, x in costs)
+                if gap > 0 and spent > gap * (1 + 1e-9) + 1e-6:
+                    return dict(step=k, what="a buy sized toward the target costs more than its budget once the configured fees "
+                                "are added", symbol=o["symbol"], shares=n, ask=ask, cost_with_fees=spent, budget=gap,
+                                configured=[(a, b) for a, b in costs])
+    return None
+
+
+BORACLES = dict(C13=oracle_c13_broker, C04=oracle_c04, C05=oracle_c05, C06=oracle_c06, C09=oracle_c09, C10=oracle_c10, C11=oracle_c11,
                 C12=oracle_c12)
 
 BPROJ = {
@@ -735,6 +774,8 @@ BPROJ = {
     "C10": (("liq", "check"), B_KIND | B_EVENT | B_CALLS | B_PENDING),
     "C11": (("getters", "check", "trade_costs"), B_KIND | B_GETTERS | B_QUOTES),
     "C12": (("diff",), B_KIND | B_ORDERS),
+    # C13 as the broker uses the cost model (the configured list must be the one applied)
+    "C13": (("diff", "trade_costs"), B_KIND | B_ORDERS | B_GETTERS),
 }
 # flags whose presence leaves the property's theorems true (decision-level quirks of other properties)
 
